@@ -14,6 +14,8 @@ Template directives (lines whose first non-blank characters are `//@`):
   //@  prologue <ghost text>         proof block inserted right after the body's opening brace (ghost only)
   //@  execconst <ensures expr>      (const items) emit as `exec const N: T ensures <expr> { E }` (@NAME = the const's name)
   //@  rename <NAME> / valueof <NAME> (const items) emit the const under another name / with its value replaced by NAME
+  //@  ghoststmt <n> => <ghost text>   proof-only text inserted after the n-th (0-based) top-level statement of the body
+  //@  ghostafter /regex/ => <ghost text>   proof-only text inserted after the unique match of regex in the body
   //@  inject <text>                 (trait/impl/struct) text inserted right after the opening brace
   //@  keepattrs <regex>             keep leading attributes matching regex (default: only #[repr..])
   //@  spec:                         following lines are spliced between signature and body
@@ -31,7 +33,7 @@ import re
 import sys
 
 sys.path.insert(0, os.path.dirname(os.path.abspath(__file__)))
-from rsitems import SourceFile, ScanError, fn_parts, find_loops, mask_source, match_close  # noqa: E402
+from rsitems import SourceFile, ScanError, fn_parts, find_loops, mask_source, match_close, split_statements  # noqa: E402
 
 VERIF = os.path.dirname(os.path.dirname(os.path.abspath(__file__)))
 REPO = os.environ.get('VERIF_REPO', '/repo')
@@ -276,6 +278,16 @@ class Assembler:
                 opts['valueof'] = b[8:].strip()
             elif b.startswith('execconst '):
                 opts['execconst'] = b[10:].strip()
+            elif b.startswith('ghoststmt '):
+                m = re.match(r'(\d+)\s*=>\s*(.*)$', b[10:].strip())
+                if not m:
+                    raise AssembleError(f'bad ghoststmt directive: {b}')
+                opts.setdefault('ghoststmt', []).append((int(m.group(1)), m.group(2)))
+            elif b.startswith('ghostafter '):
+                m = re.match(r'/(.*)/\s*=>\s*(.*)$', b[11:].strip())
+                if not m:
+                    raise AssembleError(f'bad ghostafter directive: {b}')
+                opts.setdefault('ghostafter', []).append((m.group(1), m.group(2)))
             elif b.startswith('inject '):
                 opts['inject'].append(raw[raw.index('inject ') + 7:])
             elif b.startswith('keepattrs '):
@@ -314,6 +326,22 @@ class Assembler:
         body = fp.body
         if opts['dropbody']:
             body = ''
+        if opts.get('ghoststmt'):
+            # ghost-only text after the N-th (0-based) top-level statement of the ORIGINAL body.
+            # Ordinal anchors on purpose: a dropped / duplicated / reordered statement must not
+            # lose the anchor (that would be 'undecided') but make the spliced assertion fail.
+            stmts = split_statements(fp.body)
+            ins = []
+            for nth, ghost in opts['ghoststmt']:
+                if nth < len(stmts) - 1:
+                    pos = stmts[nth][1]
+                else:   # fewer statements than expected: place before the trailing expression / at the end
+                    pos = stmts[-1][0] if stmts else 1
+                    ghost = ghost + '\n        '
+                ins.append((pos, ghost))
+            for pos, ghost in sorted(ins, key=lambda x: -x[0]):
+                body = body[:pos] + '\n        ' + ghost + body[pos:]
+            rep.setdefault('ghost_splices', []).append(f'{len(ins)} statement-ordinal ghost blocks')
         # splice loop invariants (from the last loop backwards so indices stay valid)
         if opts['loops']:
             loops = find_loops(body)
@@ -322,9 +350,26 @@ class Assembler:
                     raise AssembleError(f'{rep["item"]}: loop #{n} not found (has {len(loops)} loops) — anchor lost')
                 _, _, bo = loops[n]
                 body = body[:bo] + '\n' + '\n'.join(opts['loops'][n]) + '\n' + body[bo:]
-        body = apply_rules(body, opts['rules'], rep)
+        body = apply_rules(body, [r for r in opts['rules'] if r != 'R7'], rep)
+        if 'R7' in opts['rules']:
+            # R7: Verus has no `mut self` parameters.  `fn f(mut self, ..) { BODY }` is
+            # rewritten to `fn f(self, ..) { let mut this = self; BODY[self := this] }`
+            # (a by-value parameter rebound to a mutable local: same semantics).
+            sig, n1 = re.subn(r'\(\s*mut\s+self\b', '(self', sig)
+            if n1 != 1:
+                raise AssembleError(f'{rep["item"]}: rule R7 expects exactly one `mut self` parameter')
+            body, n2 = re.subn(r'\bself\b', 'this', body)
+            body = '{\n        let mut this = self;' + body[1:]
+            rep.setdefault('rules', {})['R7: mut self -> self + `let mut this = self` (self := this in body)'] = n2
         for rw in opts['rewrites']:
             body = do_rewrite(body, rw, f'body of {rep["item"]}', rep)
+        for rx, ghost in opts.get('ghostafter', []):
+            # ghost-only text (proof blocks / assertions) spliced after a uniquely matching piece of the body
+            ms = list(re.finditer(rx, body))
+            if len(ms) != 1:
+                raise AssembleError(f'{rep["item"]}: ghostafter /{rx}/ matched {len(ms)} times, expected 1 (anchor lost)')
+            body = body[:ms[0].end()] + '\n        ' + ghost + body[ms[0].end():]
+            rep.setdefault('ghost_splices', []).append(rx)
         if opts['prologue'] and body:
             body = '{\n' + '\n'.join(opts['prologue']) + body[1:]
         spec = '\n'.join(opts['spec'])
